@@ -20,20 +20,24 @@ does generate aliasing.
 /-- **The three spellings of a path denote the same resource.**  For a '/'-free name list
 `ks ++ [last]`, after any history: (1) `m['a/b/c']` and `m['a']['b']['c']` are the same computation
 (same result, same loads, same state) — except that when the composite key fails with `KeyError`
-because an intermediate name is a handle, the item chain has by then loaded that handle and goes
-on to index the loaded resource (`stuck`: outside desper);  (2) when `m.get('a/b/c')` is a
-handle `h`, `m['a/b/c']` is `h()`; when it is a map, `[]` returns that map and changes nothing. -/
-theorem C11_path_equiv (ops : List Op) (m : MId) (ks : List String) (last : String)
+because an intermediate name is a handle, the item chain has by then called that handle and goes
+on to index the loaded resource (`stuck`: outside desper) or hands on the loader's exception;
+(2) when `m.get('a/b/c')` is a handle `h`, `m['a/b/c']` is `h()` (`itemOf`: the loaded resource, or
+the exception of a loader that raises); when it is a map, `[]` returns that map and changes
+nothing.  `F` is the loaders' script (which invocations raise), arbitrary. -/
+theorem C11_path_equiv (F : HId → Nat → Bool) (ops : List Op) (m : MId) (ks : List String) (last : String)
     (hk : ∀ k ∈ ks ++ [last], NoSlash k) :
-    let st := exec {} ops
+    let st := exec (init F) ops
     let key := joinKey (ks ++ [last])
     (chainItems st m (ks ++ [last]) = getItem st m key ∨
-      (getItem st m key = (st, .raised "KeyError") ∧ (chainItems st m (ks ++ [last])).2 = .stuck)) ∧
+      (getItem st m key = (st, .raised "KeyError") ∧
+        ((chainItems st m (ks ++ [last])).2 = .stuck ∨
+         (chainItems st m (ks ++ [last])).2 = .raised "LoadError"))) ∧
     (∀ h, Desper.Tree.get st m key = some (.handle h) →
-      getItem st m key = ((callH st h).1, .ok (.val (callH st h).2))) ∧
+      getItem st m key = ((callH st h).1, itemOf (callH st h).2)) ∧
     (∀ c, Desper.Tree.get st m key = some (.map c) → getItem st m key = (st, .ok (.map c))) := by
   intro st key
-  have ho : OneKind st := exec_oneKind {} ops OneKind_init
+  have ho : OneKind st := exec_oneKind (init F) ops (OneKind_initF F)
   have hp : keyPath key = (ks, last) := keyPath_joinKey ks last hk
   simp only [getItem, Desper.Tree.get, hp]
   refine ⟨getItemPath_chain st ho m ks last, fun h hg => ?_, fun c hg => ?_⟩
@@ -79,13 +83,27 @@ theorem C11_get_default_iff_keyerror (st : St) (m : MId) (key : String) :
   | some t =>
     simp only []
     cases chainGet? (st.m t).layers (keyPath key).2 with
-    | some g => simp
+    | some g => cases hx : (callH st g).2 <;> simp [itemOf, hx]
     | none =>
       cases Dict.get? (st.m t).maps (keyPath key).2 <;> simp
 
 example : Desper.Tree.get (exec {} [.set (.decl 0) "h" (.handle 0)]) (.decl 0) "h/x" = none ∧
     (getItem (exec {} [.set (.decl 0) "h" (.handle 0)]) (.decl 0) "h/x").2 = .raised "KeyError" := by
   decide
+
+/-- **A rejected assignment changes nothing.**  `m[key] = value` with a key that is not a string or
+a value that is neither a map nor a handle is refused (`AssertionError`, tree.py:225-228) before
+anything is touched: in every state the whole state — every map, every layer, every back-link —
+is as before, so the latest *accepted* assignment still wins and every other theorem of this file
+goes through histories that contain rejected assignments (`Op.reject`) unchanged. -/
+theorem C11_rejected_noop (st : St) (m : MId) :
+    step st (.reject m) = (st, .res (.raised "AssertionError")) ∧
+    ∀ ops, exec st (.reject m :: ops) = exec st ops := ⟨rfl, fun _ => rfl⟩
+
+example : (exec {} [.set (.decl 0) "gfx/player" (.handle 0), .reject (.decl 0)]).m (.anon 0)
+    = (exec {} [.set (.decl 0) "gfx/player" (.handle 0)]).m (.anon 0) ∧
+    Desper.Tree.get (exec {} [.set (.decl 0) "gfx/player" (.handle 0), .reject (.decl 0)]) (.decl 0)
+      "gfx/player" = some (.handle 0) := by decide
 
 /-- **The latest assignment wins.**  After a Fresh history, assign `v` under the '/'-free names
 `ps ++ [last]` of a root map `m` (a map the program created and that is stored nowhere).  Then
@@ -98,11 +116,11 @@ itself).  In a heap, (3) — per map object — is the stronger and the right no
 two paths can reach one map); (4) is what it means for the tree below a root.
 Without the root hypothesis (1) is false in the real code too: after `m['a'] = m`,
 `m['a/a'] = h` replaces the entry the walk went through and `m.get('a/a')` is the default. -/
-theorem C11_last_assignment_wins (ops : List Op) (n : Nat) (ps : List String) (last : String) (v : Ref)
+theorem C11_last_assignment_wins (F : HId → Nat → Bool) (ops : List Op) (n : Nat) (ps : List String) (last : String) (v : Ref)
     (hk : ∀ k ∈ ps ++ [last], NoSlash k)
     (hf : Fresh (ops ++ [.set (.decl n) (joinKey (ps ++ [last])) v]))
-    (hroot : ((exec {} ops).m (.decl n)).parent = none) :
-    let st := exec {} ops
+    (hroot : ((exec (init F) ops).m (.decl n)).parent = none) :
+    let st := exec (init F) ops
     let st' := setItem st (.decl n) (joinKey (ps ++ [last])) v
     Desper.Tree.get st' (.decl n) (joinKey (ps ++ [last])) = some v ∧
     (∀ pre k suf, ps = pre ++ k :: suf →
@@ -115,7 +133,7 @@ theorem C11_last_assignment_wins (ops : List Op) (n : Nat) (ps : List String) (l
   -- the state after the loop over keys[:-1] (st1) and the target map (t)
   have hst' : st' = assign (descend st (.decl n) ps).1 (descend st (.decl n) ps).2 last v := by
     simp only [st', setItem, setItemPath, hp]
-  have hg : Good st [.set (.decl n) (joinKey (ps ++ [last])) v] := exec_good {} ops _ hf (Good_init _)
+  have hg : Good st [.set (.decl n) (joinKey (ps ++ [last])) v] := exec_good (init F) ops _ hf ((Good_initF F _))
   obtain ⟨d1, _⟩ := descend_links st (.decl n) ps hg.1
   have hw1 := walk_descend st (.decl n) ps
   have hroot1 := descend_root st (.decl n) ps n hroot
@@ -123,14 +141,14 @@ theorem C11_last_assignment_wins (ops : List Op) (n : Nat) (ps : List String) (l
   have hsm := assign_sameMaps (descend st (.decl n) ps).1 (descend st (.decl n) ps).2 last v
   have hw' : walk st' (.decl n) ps = some (descend st (.decl n) ps).2 := by
     rw [hst', walk_congr _ _ _ hsm _ _ hnr]; exact hw1
-  have ho' : OneKind st' := setItem_oneKind _ _ _ _ (exec_oneKind {} ops OneKind_init)
+  have ho' : OneKind st' := setItem_oneKind _ _ _ _ (exec_oneKind (init F) ops (OneKind_initF F))
   refine ⟨?_, fun pre k suf hps => ?_, fun j k hjk => ?_, fun hne P pl w hind hget => ?_⟩
   rotate_left 3
   · -- the path form: what an independent key denoted, it still denotes
     have hdec : v.declared = true := hf.2 v (by rw [valuesOf_append]; simp [valuesOf])
     have hnl : NoLoc st v := hg.2 v (by simp [valuesOf])
     rw [hst']
-    exact setItemPath_persist st n ps last v hg.1 (exec_oneKind {} ops OneKind_init) hroot hnl
+    exact setItemPath_persist st n ps last v hg.1 (exec_oneKind (init F) ops (OneKind_initF F)) hroot hnl
       (Or.inl hdec) hne P pl w hind hget
   · simp only [Desper.Tree.get, hp, getPath, hw']
     rw [hst']; exact lookup_assign_self _ _ _ _
@@ -169,11 +187,11 @@ example : Desper.Tree.get (exec {} [.set (.decl 0) "a" (.handle 0), .layer (.dec
 
 /-- **Under one map a name denotes either a handle or a sub-map** — after every history, with or
 without aliasing: a name that has a sub-map has no handle in any layer of `handles`. -/
-theorem C11_one_kind (ops : List Op) (i : MId) (k : String) :
-    let st := exec {} ops
+theorem C11_one_kind (F : HId → Nat → Bool) (ops : List Op) (i : MId) (k : String) :
+    let st := exec (init F) ops
     Dict.get? (st.m i).maps k ≠ none → ∀ l ∈ (st.m i).layers, Dict.get? l k = none := by
   intro st hk
-  have := exec_oneKind {} ops OneKind_init i k hk
+  have := exec_oneKind (init F) ops (OneKind_initF F) i k hk
   rwa [chainGet_none] at this
 
 example : (exec {} [.set (.decl 0) "x" (.handle 0), .layer (.decl 0), .set (.decl 0) "x" (.handle 1),
@@ -184,8 +202,8 @@ example : (exec {} [.set (.decl 0) "x" (.handle 0), .layer (.decl 0), .set (.dec
 under**, after every Fresh history: (1) every sub-map entry of every map object, hence every map
 reachable through any path, including the maps `__setitem__` created for intermediate key parts;
 (2) every handle in every layer of `handles` (visible or shadowed);  (3) the path form. -/
-theorem C11_backlinks (ops : List Op) (hf : Fresh ops) :
-    let st := exec {} ops
+theorem C11_backlinks (F : HId → Nat → Bool) (ops : List Op) (hf : Fresh ops) :
+    let st := exec (init F) ops
     (∀ i k c, Dict.get? (st.m i).maps k = some c → (st.m c).parent = some i ∧ (st.m c).key = some k) ∧
     (∀ i l k g, l ∈ (st.m i).layers → Dict.get? l k = some g →
       (st.h g).parent = some i ∧ (st.h g).key = some k) ∧
@@ -194,7 +212,7 @@ theorem C11_backlinks (ops : List Op) (hf : Fresh ops) :
       (∀ g, getPath st m ps k = some (.handle g) → (st.h g).parent = some i ∧ (st.h g).key = some k)) := by
   intro st
   have hg : Good st [] := by
-    have := exec_good {} ops [] (by simpa using hf) (Good_init _)
+    have := exec_good (init F) ops [] (by simpa using hf) ((Good_initF F _))
     exact this
   refine ⟨hg.1.maps, hg.1.handles, fun m ps k i hw => ⟨fun c hc => ?_, fun g hc => ?_⟩⟩
   · simp only [getPath, hw, lookup] at hc
@@ -223,16 +241,16 @@ example : ((exec {} [.set (.decl 0) "a/b/c" (.handle 0)]).m (.anon 1)).parent = 
 After a Fresh history, `clear` of any map `i`: no sub-maps, a single empty layer of handles,
 every `get` answers the default; every former direct child — sub-map, visible handle, shadowed
 handle in a lower layer — has `parent = None` and `key = None`. -/
-theorem C11_clear (ops : List Op) (hf : Fresh ops) (i : MId) :
-    let st := exec {} ops
-    let st' := exec {} (ops ++ [.clear i])
+theorem C11_clear (F : HId → Nat → Bool) (ops : List Op) (hf : Fresh ops) (i : MId) :
+    let st := exec (init F) ops
+    let st' := exec (init F) (ops ++ [.clear i])
     (st'.m i).maps = [] ∧ (st'.m i).layers = [[]] ∧ (∀ key, Desper.Tree.get st' i key = none) ∧
     (∀ k c, Dict.get? (st.m i).maps k = some c → (st'.m c).parent = none ∧ (st'.m c).key = none) ∧
     (∀ l ∈ (st.m i).layers, ∀ k g, Dict.get? l k = some g →
       (st'.h g).parent = none ∧ (st'.h g).key = none) := by
   intro st st'
   have e : st' = clearMap st i := by simp only [st', exec_append]; rfl
-  have hg : Good st [] := exec_good {} ops [] (by simpa using hf) (Good_init _)
+  have hg : Good st [] := exec_good (init F) ops [] (by simpa using hf) ((Good_initF F _))
   have hm := clearMap_m st i i
   simp only [if_true] at hm
   refine ⟨by rw [e]; exact hm.1, by rw [e]; exact hm.2.1, fun key => ?_, fun k c hc => ?_,
